@@ -12,7 +12,8 @@
 EXTENDS Selector, TLC, Json, IOUtils
 
 Rec == ndJsonDeserialize(IOEnv.TRACE)
-VARIABLES l, bad
+VARIABLES l, bad,
+          last      \* (C01 at system level) <<keyspace, id>> -> the operation issued last for that document
 
 \* the recorder reports data-centre sizes; nodes of a data centre are numbered 1..size
 Lay(a) == [i \in 1..Len(a) |-> 1..a[i]]
@@ -38,14 +39,27 @@ Call(e) ==
      \* with nobody refusing, a satisfiable level succeeds
      /\ (failing = {} /\ slow = {} /\ ~AllowedErr(lay, e.level)) => e.result = "ok"
 
-\* final : (C01 at system level) after operations issued at level None on real clusters every node's storage holds
-\*         the same stamp, kind and bytes for the document
-Ok(e) == IF e.ev = "call" THEN Call(e) ELSE IF e.ev = "final" THEN e.all_equal ELSE e.replicated_everywhere
+\* op    : (C01 at system level) an operation issued at level None on a real cluster; operations on one document are
+\*         issued more than a clock tick apart, so the one issued last carries the greatest timestamp
+\* final : afterwards every node's storage holds the same stamp for the document, and exactly the operation issued
+\*         last: its bytes if it was a put, a tombstone or nothing if it was a delete
+NodeHolds(n, w) == IF w.kind = "put" THEN Len(n) = 3 /\ n[2] = FALSE /\ n[3] = w.dig
+                   ELSE n = <<>> \/ (Len(n) = 3 /\ n[2] = TRUE)
+Final(e) == LET key == <<e.layout, e.ks, e.id>>
+            IN /\ e.all_equal
+               /\ key \in DOMAIN last
+               /\ \A i \in 1..Len(e.nodes) : NodeHolds(e.nodes[i], last[key])
+Ok(e) == IF e.ev = "call" THEN Call(e) ELSE IF e.ev = "final" THEN Final(e)
+         ELSE IF e.ev = "op" THEN TRUE ELSE e.replicated_everywhere
 
-Init == l = 1 /\ bad = <<>>
+Init == l = 1 /\ bad = <<>> /\ last = <<>>
 Next == /\ l <= Len(Rec) /\ l' = l + 1
         /\ bad' = IF Ok(Rec[l]) THEN bad ELSE Append(bad, l)
-Spec == Init /\ [][Next]_<<l, bad>>
+        /\ last' = IF Rec[l].ev = "op"
+                   THEN LET key == <<Rec[l].layout, Rec[l].ks, Rec[l].id>>
+                        IN [k \in DOMAIN last \cup {key} |-> IF k = key THEN [kind |-> Rec[l].kind, dig |-> Rec[l].dig] ELSE last[k]]
+                   ELSE last
+Spec == Init /\ [][Next]_<<l, bad, last>>
 Accepted ==
   LET d == TLCGet("stats").diameter
   IN IF d - 1 # Len(Rec) THEN PrintT(<<"REJECTED", ToJson([line |-> d, event |-> Rec[d]])>>) /\ FALSE ELSE TRUE
